@@ -27,7 +27,7 @@ fuzz_target!(|data: &[u8]| {
             _ => StoreOp::RemAtt(a, b),
         });
     }
-    let case = StoreCase { universe, string_labels, coarse, hub_prefix: 0, initial, ops };
+    let case = StoreCase { universe, string_labels, coarse, hub_prefix: 0, churn: 0, initial, ops };
     let mut rec = Rec::default();
     if let Err(f) = vharness::checks::store::Store.run(&case, &mut rec) {
         vharness::fuzzsupport::report("C12", &f, serde_json::to_value(&case).unwrap());
